@@ -180,6 +180,13 @@ func (tw *tokenWorld) pickPresentation(ch *kernel.Chooser, target string) presen
 		// a client that authenticates by assertion: more of the assertion variants
 		x = []int{13, 14, 15, 16, 17, 18, 22, 22}[ch.Int(8)]
 	}
+	if tw.prop == "C05" && c != nil && c.Auth != oidc.AuthMethodPrivateKeyJWT && c.Key != nil && ch.Bool(1, 3) {
+		// a faultless assertion signed with the key the storage holds for a client that is registered for a secret
+		p := mkAssertion(w, target, target, target, "", []string{w.Issuer}, now, now.Add(time.Hour))
+		p.label = "assertion-by-a-client-registered-for-a-secret"
+		tw.o.Probe("assertions-by-clients-registered-for-a-secret")
+		return p
+	}
 	switch {
 	case x == 22:
 		// a long-lived assertion that is presented again more than an hour after it was issued: not expired, but older
